@@ -90,6 +90,15 @@ def doSubscribe (m : M α) (s : Subscription α) (obOn subOn : Option Tag) (g : 
 def subscribe (m : M α) (s : Subscription α) (g : Tag) (w : World) : World :=
   doSubscribe m s m.obOn m.subOn g w
 
+/-- doSubscribe with an OnNext, cut at the point where `doOb` has run the effect: the world the effect left, and
+    the rest (the delivery) as a resumption.  The handler pair is the pair passed in — fixed when Subscribe was
+    called; nothing that happens before the resumption runs can change where it delivers. -/
+def doSubscribeSplit (m : M α) (onNext : α → Tag → World → World) (obOn subOn : Option Tag) (g : Tag) (w : World) :
+    World × (World → World) :=
+  let g1 := obOn.getD g
+  let r := doEffect m g1 w
+  (r.2, fun w' => onNext r.1 (subOn.getD g1) w')
+
 /-- Cor.YieldFromIO: `target.SubscribeOn(nil).Subscribe({OnNext: func(in){ result = in; wg.Done() }}); wg.Wait(); return result`
     (the receiver is mutated: subOn stays nil afterwards) -/
 def yieldFromIO (m : M Nat) (g : Tag) (w : World) : M Nat × Nat × World :=
@@ -108,6 +117,8 @@ inductive Tree
   | W (id : Nat)                         -- New(effect id): logs, returns (2*v + id + #events so far) % 1000
   | H (id : Nat)                         -- New(func(){ return api.Eval() }) around a SimpleAPI GET built at construction; the
                                          -- stub transport is effect `id` of kind N (network/simpleHTTP.go returns its call as a MonadIO)
+  | G (id : Nat)                         -- like N; in the harness the first run after a gated Subscribe blocks at the gate
+                                         -- (after logging) until the script opens it
   | FR (t : Tree)                        -- t.FlatMap(Just)
   | FL (c : Nat) (t b : Tree)            -- t.FlatMap(func(x){ log call c x; return b[x] })
   | FC (c : Nat) (t b1 b2 : Tree)        -- t.FlatMap(func(x){ log call c x; if x even return b1[x] else b2[x] })
@@ -135,6 +146,7 @@ def den : Tree → Nat → M Nat
   | .N id, _ => new (userEffect id (valN id))
   | .W id, v => new (userEffect id (valW v id))
   | .H id, _ => new (userEffect id (valN id))
+  | .G id, _ => new (userEffect id (valN id))
   | .FR t, v => flatMap (den t v) just
   | .FL c t b, v => flatMap (den t v) (kont c (fun x => den b x))
   | .FC c t b1 b2, v => flatMap (den t v) (kont c (fun x => if x % 2 = 0 then den b1 x else den b2 x))
@@ -152,6 +164,7 @@ def run : Tree → (v n : Nat) → Nat × List Kind
   | .N id, _, n => (valN id n, [.eff id])
   | .W id, v, n => (valW v id n, [.eff id])
   | .H id, _, n => (valN id n, [.eff id])
+  | .G id, _, n => (valN id n, [.eff id])
   | .FR t, v, n => run t v n
   | .FL c t b, v, n =>
     let r1 := run t v n
@@ -191,6 +204,7 @@ def labels : Tree → List Label
   | .N id => [.eff id]
   | .W id => [.eff id]
   | .H id => [.eff id]
+  | .G id => [.eff id]
   | .FR t => labels t
   | .FL c t b => labels t ++ .call c :: labels b
   | .FC c t b1 _ => labels t ++ .call c :: labels b1
@@ -239,6 +253,7 @@ def parseTree : Nat → List String → Option (Tree × List String)
     | "N", i :: rest => i.toNat?.map (fun i => (.N i, rest))
     | "W", i :: rest => i.toNat?.map (fun i => (.W i, rest))
     | "H", i :: rest => i.toNat?.map (fun i => (.H i, rest))
+    | "G", i :: rest => i.toNat?.map (fun i => (.G i, rest))
     | "FR", rest => (parseTree fuel rest).map (fun (t, rest) => (.FR t, rest))
     | "FL", c :: rest =>
       match c.toNat?, parseTree fuel rest with
@@ -279,24 +294,43 @@ def parseHead (head : String) : Option Tree :=
 /-- the harness' OnNext: logs the delivery -/
 def logNext : Nat → Tag → World → World := fun x g w => w.emit (.next x) g
 
-/-- the operations of a case: build-only, Eval, Subscribe with / without OnNext, Cor.YieldFromIO,
-    ObserveOn(h), SubscribeOn(h) on the composed value -/
-inductive Op | build | eval | sub | subNil | yield | ob (h : Option Tag) | so (h : Option Tag)
-  | race (h : Option Tag)   -- `r<h>`: ObserveOn(h3); Subscribe while h3's goroutine is busy; SubscribeOn(h) before the effect runs
-  | derive (c : Nat)   -- `d<c>`: the current value becomes `m.FlatMap(k_c)` (k_c logs `call c x` and returns Just((x+1) % 1000));
-                       -- the harness also derives a second, never evaluated FlatMap from the same `m` right afterwards
-deriving DecidableEq, Repr
+/-- the operations on ONE MonadIO object: build-only, Eval, Subscribe with / without OnNext, Cor.YieldFromIO,
+    ObserveOn(h), SubscribeOn(h) -/
+inductive BOp | build | eval | sub | subNil | yield | ob (h : Option Tag) | so (h : Option Tag)
+deriving Repr
 
-def parseOp (s : String) : Option Op :=
+/-- the operations of a case.  A case works on up to four MonadIO objects (registers; 0 = the value built from the
+    head tree): `sel j` makes register j current, `derive j c b` stores `current.FlatMap(continuation (c, b))` in
+    register j (several objects derived from the SAME object), `gsub` = Subscribe with OnNext whose effect blocks at
+    the gate (leaf G) until `gopen`; the operations in between run while that subscription is in flight. -/
+inductive Op | basic (o : BOp) | gsub | gopen | sel (j : Nat) | derive (j c : Nat) (b : Tree)
+deriving Repr
+
+def parseBOp (s : String) : Option BOp :=
   match s with
   | "b" => some .build | "e" => some .eval | "s" => some .sub | "z" => some .subNil | "y" => some .yield
   | "o0" => some (.ob none) | "o1" => some (.ob (some .h1)) | "o2" => some (.ob (some .h2)) | "o3" => some (.ob (some .h3))
   | "u0" => some (.so none) | "u1" => some (.so (some .h1)) | "u2" => some (.so (some .h2)) | "u3" => some (.so (some .h3))
-  | "r0" => some (.race none) | "r1" => some (.race (some .h1)) | "r2" => some (.race (some .h2)) | "r3" => some (.race (some .h3))
-  | _ => if s.startsWith "d" then (s.drop 1).toString.toNat?.map .derive else none
+  | _ => none
 
-/-- one operation of the implementation model: the current MonadIO value and world -/
-def implOp (st : M Nat × World) : Op → (M Nat × World) × String
+def parseReg (s : String) : Option Nat :=
+  match s with
+  | "0" => some 0 | "1" => some 1 | "2" => some 2 | "3" => some 3 | _ => none
+
+def parseOp (s : String) : Option Op :=
+  match tokens s with
+  | ["sg"] => some .gsub
+  | ["g-"] => some .gopen
+  | ["r", j] => (parseReg j).map .sel
+  | "D" :: j :: c :: rest =>
+    match parseReg j, c.toNat?, parseTree (rest.length + 1) rest with
+    | some j, some c, some (b, []) => some (.derive j c b)
+    | _, _, _ => none
+  | [t] => (parseBOp t).map .basic
+  | _ => none
+
+/-- one operation on one object of the implementation model: the MonadIO value and the world -/
+def implOp (st : M Nat × World) : BOp → (M Nat × World) × String
   | .build => (st, "-")
   | .eval =>
     let r := eval st.1 .main st.2
@@ -312,16 +346,72 @@ def implOp (st : M Nat × World) : Op → (M Nat × World) × String
     ((r.1, r.2.2), s!"v={r.2.1} {showEvs (r.2.2.log.drop st.2.log.length)}")
   | .ob h => ((observeOn st.1 h, st.2), "-")
   | .so h => ((subscribeOn st.1 h, st.2), "-")
-  | .derive c => ((flatMap st.1 (kont c (fun x => den (.V 1) x)), st.2), "-")
-  | .race h =>
-    -- Subscribe reads both handler fields when it is called; a later SubscribeOn does not reach the subscription in flight
-    let m1 := observeOn st.1 (some .h3)
-    let w' := subscribe m1 ⟨some logNext⟩ .main st.2
-    ((subscribeOn m1 h, w'), showEvs (w'.log.drop st.2.log.length))
 
-def stepOp (st : M Nat × World) (op : String) : (M Nat × World) × String :=
+/-- While a gated subscription holds handler `hb`'s goroutine, an operation that has to run something on `hb`
+    (and wait for it) cannot be part of a script: the protocol answers `bad-op` (both sides) instead of deadlocking. -/
+def blocked (hb : Tag) (ob sub : Option Tag) : BOp → Bool
+  | .sub => ob == some hb || sub == some hb
+  | .yield => ob == some hb
+  | _ => false
+
+/-- ObserveOn and SubscribeOn naming the same handler with an unbuffered channel: Post from the handler's own goroutine
+    to itself can never be received; the property names two handlers.  Such a Subscribe is not part of a script
+    (`bad-op` on both sides) unless the head says the library under test supports it (`gs` / `is`). -/
+def sameUnbuffered (ob sub : Option Tag) : Bool :=
+  (ob == some .h1 && sub == some .h1) || (ob == some .h2 && sub == some .h2)
+
+/-- the guard as a function of whatever is pending -/
+def guarded {γ : Type} (allowSame : Bool) (pend : Option (Tag × γ)) (ob sub : Option Tag) (o : BOp) : Bool :=
+  (match o with | .sub => !allowSame && sameUnbuffered ob sub | _ => false) ||
+  match pend with
+  | some (hb, _) => blocked hb ob sub o
+  | none => false
+
+def setReg {γ : Type} (regs : Nat → Option γ) (j : Nat) (x : γ) : Nat → Option γ :=
+  fun k => if k = j then some x else regs k
+
+/-- protocol state of the implementation model -/
+structure ISt where
+  regs : Nat → Option (M Nat)
+  cur : Nat
+  w : World
+  pend : Option (Tag × (World → World))   -- the handler held by the gated subscription, and what it still has to do
+  allowSame : Bool := false
+
+def implStep (st : ISt) : Op → ISt × String
+  | .sel j =>
+    match st.regs j with
+    | some _ => ({ st with cur := j }, "-")
+    | none => (st, "bad-op")
+  | .derive j c b =>
+    match st.regs st.cur with
+    | some m => ({ st with regs := setReg st.regs j (flatMap m (kont c (fun x => den b x))) }, "-")
+    | none => (st, "bad-op")
+  | .gopen =>
+    match st.pend with
+    | some (_, k) => ({ st with w := k st.w, pend := none }, showEvs ((k st.w).log.drop st.w.log.length))
+    | none => (st, "-")
+  | .gsub =>
+    match st.regs st.cur, st.pend with
+    | some m, none =>
+      match (if !st.allowSame && sameUnbuffered m.obOn m.subOn then none else m.obOn) with
+      | some hb =>
+        let p := doSubscribeSplit m logNext m.obOn m.subOn .main st.w
+        ({ st with w := p.1, pend := some (hb, p.2) }, showEvs (p.1.log.drop st.w.log.length))
+      | none => (st, "bad-op")
+    | _, _ => (st, "bad-op")
+  | .basic o =>
+    match st.regs st.cur with
+    | some m =>
+      if guarded st.allowSame st.pend m.obOn m.subOn o then (st, "bad-op")
+      else
+        let r := implOp (m, st.w) o
+        ({ st with regs := setReg st.regs st.cur r.1.1, w := r.1.2 }, r.2)
+    | none => (st, "bad-op")
+
+def stepOp (st : ISt) (op : String) : ISt × String :=
   match parseOp op with
-  | some o => implOp st o
+  | some o => implStep st o
   | none => (st, "bad-op")
 
 def splitCase (line : String) : String × List String :=
@@ -340,12 +430,19 @@ def runOps {σ : Type} (step : σ → String → σ × String) (init : σ) (ops 
 
 def w0 : World := ⟨[], 0⟩
 
+def headAllowsSame (head : String) : Bool :=
+  match tokens head with
+  | a :: _ => a == "gs" || a == "is"
+  | [] => false
+
+def istInit (t : Tree) (allowSame : Bool := false) : ISt := ⟨setReg (fun _ => none) 0 (den t 0), 0, w0, none, allowSame⟩
+
 /-- protocol entry point of the implementation model -/
 def handle (line : String) : String :=
   let (head, ops) := splitCase line
   match parseHead head with
   | none => "bad-case"
-  | some t => " | ".intercalate (runOps stepOp (den t 0, w0) ops)
+  | some t => " | ".intercalate (runOps stepOp (istInit t (headAllowsSame head)) ops)
 
 /-! ### Spec-level oracle: the statement of the property evaluated directly
 
@@ -362,7 +459,7 @@ structure SpecSt where
   n : Nat
 
 def showKinds (ks : List Kind) (g : Tag) : List String := ks.map (fun k => showEv ⟨k, g⟩)
-def specOp' (st : SpecSt) : Op → SpecSt × String
+def specOp' (st : SpecSt) : BOp → SpecSt × String
   | .build => (st, "-")
   | .eval =>
     let r := run st.t 0 st.n
@@ -379,24 +476,66 @@ def specOp' (st : SpecSt) : Op → SpecSt × String
     ({ st with n := st.n + r.2.length, sub := none }, s!"v={r.1} {joinEvs (showKinds r.2 g1)}")
   | .ob h => ({ st with ob := h }, "-")
   | .so h => ({ st with sub := h }, "-")
-  | .derive c => ({ st with t := .FL c st.t (.V 1), ob := none, sub := none }, "-")
-  | .race h =>
-    -- the handler pair in force when Subscribe is called decides: effect on h3, delivery on the OLD subscribe handler
-    let r := run st.t 0 st.n
-    let g2 := st.sub.getD .h3
-    ({ st with ob := some .h3, sub := h, n := st.n + r.2.length + 1 },
-     joinEvs (showKinds r.2 .h3 ++ showKinds [.next r.1] g2))
 
-def specOp (st : SpecSt) (op : String) : SpecSt × String :=
+/-- one object as the statement sees it: the composition it denotes and the handler pair set on it -/
+structure SReg where
+  t : Tree
+  ob : Option Tag
+  sub : Option Tag
+
+/-- Spec state of a case: the objects, the current one, the number of events so far, and — for a gated subscription
+    in flight — the handler it holds, the value it will deliver and the goroutine it must deliver on (fixed when
+    Subscribe was called: the pair then in force). -/
+structure SSt where
+  regs : Nat → Option SReg
+  cur : Nat
+  n : Nat
+  pend : Option (Tag × Nat × Tag)
+  allowSame : Bool := false
+
+def specStep (st : SSt) : Op → SSt × String
+  | .sel j =>
+    match st.regs j with
+    | some _ => ({ st with cur := j }, "-")
+    | none => (st, "bad-op")
+  | .derive j c b =>
+    match st.regs st.cur with
+    | some r => ({ st with regs := setReg st.regs j ⟨.FL c r.t b, none, none⟩ }, "-")   -- m.FlatMap(f): a new composition
+    | none => (st, "bad-op")
+  | .gopen =>
+    match st.pend with
+    | some (_, v, g2) => ({ st with n := st.n + 1, pend := none }, joinEvs (showKinds [.next v] g2))
+    | none => (st, "-")
+  | .gsub =>
+    match st.regs st.cur, st.pend with
+    | some r, none =>
+      match (if !st.allowSame && sameUnbuffered r.ob r.sub then none else r.ob) with
+      | some hb =>
+        let q := run r.t 0 st.n
+        ({ st with n := st.n + q.2.length, pend := some (hb, q.1, r.sub.getD hb) }, joinEvs (showKinds q.2 hb))
+      | none => (st, "bad-op")
+    | _, _ => (st, "bad-op")
+  | .basic o =>
+    match st.regs st.cur with
+    | some r =>
+      if guarded st.allowSame st.pend r.ob r.sub o then (st, "bad-op")
+      else
+        let q := specOp' ⟨r.t, r.ob, r.sub, st.n⟩ o
+        ({ st with regs := setReg st.regs st.cur ⟨q.1.t, q.1.ob, q.1.sub⟩, n := q.1.n }, q.2)
+    | none => (st, "bad-op")
+
+def specOp (st : SSt) (op : String) : SSt × String :=
   match parseOp op with
-  | some o => specOp' st o
+  | some o => specStep st o
   | none => (st, "bad-op")
+
+def sstInit (t : Tree) (allowSame : Bool := false) : SSt := ⟨setReg (fun _ => none) 0 ⟨t, rootOb t, rootSub t⟩, 0, 0, none, allowSame⟩
 
 def specCase (line : String) : String :=
   let (head, ops) := splitCase line
   match parseHead head with
   | none => "bad-case"
-  | some t => " | ".intercalate (runOps specOp ⟨t, rootOb t, rootSub t, 0⟩ ops)
+  | some t => " | ".intercalate (runOps specOp (sstInit t (headAllowsSame head)) ops)
 
 def judge (line impl : String) : String :=
   if impl = specCase line then "allowed implementation agrees with the statement (chain once, in order, right goroutines); the model differs"
